@@ -146,6 +146,14 @@ F_KINDS = [
     ("wait_join_match", [], '(match jv 1 (null))', WAIT),
     ("wait_join_fold", [], '(fold jv it2 (null))', WAIT),
     ("wait_join_ap", [], '(ap jv y1)', WAIT),
+    # (added after the seeded change C18-waiting-lens-fold-fails-catchably was missed) every operand form of every instruction
+    # that joins on a variable: with a lens, as a triplet part, in a mismatch
+    ("wait_join_fold_lens", [], '(fold jv.$.a it2 (null))', WAIT),
+    ("wait_join_call_lens", [], '(call %init_peer_id% ("s18" "ok") [jv.$.a])', WAIT),
+    ("wait_join_match_lens", [], '(match jv.$.a 1 (null))', WAIT),
+    ("wait_join_mismatch", [], '(mismatch jv 1 (null))', WAIT),
+    ("wait_join_ap_lens", [], '(ap jv.$.a y1)', WAIT),
+    ("wait_join_triplet", [], '(call jv ("s18" "ok") [])', WAIT),
     # uncatchable
     ("unc_shadow", [], '(seq (ap 1 sh1) (ap 2 sh1))', UNCATCHABLE),
     ("unc_iter_shadow", ["arr1"], '(fold arr1 it3 (seq (call %init_peer_id% ("s18" "ok") [] it3) (next it3)))', UNCATCHABLE),
